@@ -119,6 +119,30 @@ def add(x, y): return x + y
 def mul(x, y): return x * y
 def mod(x, y): return x % y
 def mkrange(a, b, c): return range(a, b, c)
+def alias(op, x, a, mut):
+    # r = op(x [, a]); then mutate either r or an operand in place; return all three lists
+    if op == "mul": r = x * a
+    elif op == "rmul": r = a * x
+    elif op == "add": r = x + a
+    elif op == "radd": r = a + x
+    elif op == "slice": r = x[a[0]:a[1]:a[2]]
+    elif op == "list": r = list(x)
+    elif op == "sorted": r = sorted(x)
+    elif op == "reversed": r = reversed(x)
+    elif op == "addself": r = x + x
+    else: fail("alias: " + op)
+    t = x
+    if mut.endswith("result"): t = r
+    elif mut.endswith("other"): t = a
+    if mut.startswith("set"):
+        if len(t) > 0: t[len(t) - 1] = 99
+    elif mut.startswith("append"): t.append(99)
+    elif mut.startswith("popappend"):
+        if len(t) > 0: t.pop()
+        t.append(98)
+    elif mut.startswith("clear"): t.clear()
+    elif mut.startswith("insert"): t.insert(0, 97)
+    return (x, a, r)
 k_len = len
 k_int = int
 def k_mod3(x): return x % 3
@@ -356,6 +380,9 @@ func run1(c *Case) {
 			kwargs = append(kwargs, starlark.Tuple{starlark.String("reverse"), starlark.Bool(c.Rev == "true")})
 		}
 		c.Obs = callSafeKw(starlark.Universe[c.Name], args, kwargs)
+	case "alias":
+		// Args[0]: the other operand (a list, an int, or a (lo, hi, step) tuple); Key: the mutation
+		c.Obs = callSafe(prelude["alias"], starlark.Tuple{starlark.String(c.Name), toStarlark(*c.X), toStarlark(c.Args[0]), starlark.String(c.Key)})
 	case "bin":
 		fn := prelude["add"]
 		if c.Name == "*" {
@@ -457,6 +484,9 @@ func (s *sink) do(c Case) {
 	}
 	if c.Op == "call" && c.Name == "format" && c.X.T != "str" {
 		ce = 0
+	}
+	if c.Op == "alias" {
+		ce = 0 // object identity is outside the value-level Coq model: Go copy of the specification and CPython
 	}
 	if c.Op == "builtin" && (c.Name == "list" || c.Name == "tuple") {
 		ce = 0 // no Coq model: Go copy of the specification and CPython
@@ -630,6 +660,8 @@ func main() {
 	lap("iterables")
 	genFormat(s, quick)
 	lap("format")
+	genAlias(s, quick)
+	lap("alias")
 	riskyParent(s, quick, *seed)
 	lap("risky")
 	type kv struct {
